@@ -36,6 +36,29 @@ import (
 // reported as inconclusive, never as a violation.
 const watchdog = 40 * time.Second
 
+// After a few firings in one process (a tree on which go-zero no longer makes the
+// awaited call at all) later waits are shortened so that the child still finishes;
+// the outcome of a fired wait is "inconclusive" either way.
+var (
+	dogMu    sync.Mutex
+	dogFired int
+)
+
+func patience() time.Duration {
+	dogMu.Lock()
+	defer dogMu.Unlock()
+	if dogFired >= 3 {
+		return 20 * time.Second
+	}
+	return watchdog
+}
+
+func fired() {
+	dogMu.Lock()
+	dogFired++
+	dogMu.Unlock()
+}
+
 type wkey struct{ key, end string } // end == "": exact key, else the range [key,end)
 
 func (w wkey) match(k string) bool {
@@ -103,6 +126,10 @@ type fakeEtcd struct {
 	conn        *grpc.ClientConn
 	note        chan struct{}
 	batchReplay bool
+	// what go-zero asked for most recently (the harness learns the watched range from
+	// the calls instead of assuming it)
+	totGets, totWatches int
+	lastGet             wkey
 	// counters for the evidence
 	nDelivered, nReplayed, nSnaps, nCompacted, nProgress int64
 }
@@ -174,6 +201,8 @@ func (f *fakeEtcd) Get(_ context.Context, key string, opts ...clientv3.OpOption)
 		snap[k] = f.kv[k]
 	}
 	fe.gets++
+	f.totGets++
+	f.lastGet = wk
 	fe.loadRev = f.rev
 	fe.trans = append(fe.trans, titem{kind: tSnap, snap: snap})
 	f.nSnaps++
@@ -188,6 +217,7 @@ func (f *fakeEtcd) Watch(ctx context.Context, key string, opts ...clientv3.OpOpt
 	st := &fstream{ch: make(chan clientv3.WatchResponse), wake: make(chan struct{}, 1)}
 	fe.cur = st
 	fe.watches++
+	f.totWatches++
 	fe.stalled = false
 	switch {
 	case start != 0 && start < f.compactRev:
@@ -408,12 +438,13 @@ func (f *fakeEtcd) progress(wk wkey) bool {
 	fe.cur.push(qitem{resp: clientv3.WatchResponse{Header: pb.ResponseHeader{Revision: f.rev}}, done: done})
 	f.nProgress++
 	f.mu.Unlock()
-	t := time.NewTimer(watchdog)
+	t := time.NewTimer(patience())
 	defer t.Stop()
 	select {
 	case <-done:
 		return true
 	case <-t.C:
+		fired()
 		return false
 	}
 }
@@ -430,7 +461,7 @@ func (f *fakeEtcd) calls(wk wkey) (gets, watches int) {
 // waitCalls waits until go-zero has issued at least the given numbers of Get and
 // Watch calls for wk.
 func (f *fakeEtcd) waitCalls(wk wkey, gets, watches int) bool {
-	t := time.NewTimer(watchdog)
+	t := time.NewTimer(patience())
 	defer t.Stop()
 	for {
 		g, w := f.calls(wk)
@@ -440,6 +471,54 @@ func (f *fakeEtcd) waitCalls(wk wkey, gets, watches int) bool {
 		select {
 		case <-f.note:
 		case <-t.C:
+			fired()
+			return false
+		}
+	}
+}
+
+// waitLive waits until go-zero has (re-)established a watch on wk that the scripted
+// etcd did not answer with "compacted": the reload sequence, whatever it consisted
+// of, is then over on go-zero's side.
+func (f *fakeEtcd) waitLive(wk wkey, watches int) bool {
+	t := time.NewTimer(patience())
+	defer t.Stop()
+	for {
+		f.mu.Lock()
+		fe := f.feeds[wk]
+		ok := fe != nil && fe.watches >= watches && fe.cur != nil && !fe.cur.dead
+		f.mu.Unlock()
+		if ok {
+			return true
+		}
+		select {
+		case <-f.note:
+		case <-t.C:
+			fired()
+			return false
+		}
+	}
+}
+
+func (f *fakeEtcd) totals() (int, int, wkey) {
+	f.mu.Lock()
+	defer f.mu.Unlock()
+	return f.totGets, f.totWatches, f.lastGet
+}
+
+// waitTotals waits for go-zero's next Get and Watch calls on any range.
+func (f *fakeEtcd) waitTotals(gets, watches int) bool {
+	t := time.NewTimer(patience())
+	defer t.Stop()
+	for {
+		g, w, _ := f.totals()
+		if g >= gets && w >= watches {
+			return true
+		}
+		select {
+		case <-f.note:
+		case <-t.C:
+			fired()
 			return false
 		}
 	}
